@@ -454,7 +454,31 @@ func writerCase(w *mon.W, c *mon.Case) {
 			if sz > 1 && r.Chance(5) {
 				src.failAfter = r.Intn(sz)
 			}
+			armedRF := false
+			if src.failAfter < 0 && r.Chance(5) {
+				// the peer is slow once while ReadFrom flushes on its own: one of its writes
+				// is cut short by the write deadline
+				fc.partialAt = fc.out.Len() + r.Intn(len(model)-fc.out.Len()+sz+1)
+				armedRF = true
+			}
 			n, err := cn.(io.ReaderFrom).ReadFrom(src)
+			if armedRF {
+				fired := fc.partialAt < 0
+				fc.partialAt = -1
+				if fired && err != nil {
+					// ReadFrom reports the timeout together with the bytes it took; these
+					// count as written, the connection stays usable (the caller lifts the
+					// deadline and goes on)
+					if _, ok := err.(interface{ Timeout() bool }); !ok || n < 0 || n > int64(sz) {
+						c.Violate("readfrom-error", "ReadFrom of a %d-byte source (%s) whose flush met a write timeout returned n=%d, %v", sz, kind, n, err)
+						return
+					}
+					opsLog = append(opsLog, fmt.Sprintf("ReadFrom(%d,%s; a flush inside timed out after a partial write, n=%d)", sz, kind, n))
+					w.Count("readfrom_flush_timed_out", 1)
+					model = append(model, b[:n]...)
+					continue
+				}
+			}
 			if src.failAfter >= 0 {
 				// the source failed: ReadFrom reports it together with the number of bytes it
 				// took, which count as written; the connection stays usable
